@@ -224,6 +224,12 @@ func parseContractFile(path string, pkgPath string, pc *PkgContracts) error {
 				c := mkClause("invariant", r2, path, i+1, counts)
 				c.Label = fmt.Sprintf("loop%d.%s", ord, c.Label)
 				cur.Loops[ord] = append(cur.Loops[ord], c)
+			case "step":
+				// loop N step label: expr - holds at the end of every iteration; old(...) is the state at
+				// the beginning of that iteration (a postcondition of the loop body)
+				c := mkClause("step", r2, path, i+1, counts)
+				c.Label = fmt.Sprintf("loop%d.%s", ord, c.Label)
+				cur.Loops[ord] = append(cur.Loops[ord], c)
 			case "modifies":
 				cur.LoopMods[ord] = append(cur.LoopMods[ord], splitTop(r2, ',')...)
 			default:
